@@ -218,6 +218,243 @@ def tmpl_module(tmpls, step):
     return "\n".join(L)
 
 
+
+# ---------------------------------------------------------------------------------------------
+# the padded 'c' path: __Pyx_uchar_PyUnicode_From_<T> -> __Pyx_PyUnicode_FromOrdinal_Padded
+# (UTF-8 / Latin-1 encode into char chars[256], decode) for every C integer type that reaches it
+# ---------------------------------------------------------------------------------------------
+CHR_EXTRA_TYPES = [("char", "char", 8, True),                       # plain char (signed on this ABI)
+                   ("c18_td_uint", "tduint", 32, False),            # ctypedef unsigned int
+                   ("c18_ext_ll", "extll", 64, True),               # extern typedef declared `int`, really long long
+                   ("c18_ext_u16", "extu16", 16, False),            # extern typedef declared `unsigned char`, really unsigned short
+                   ("C18Enum", "enum", 32, True)]                   # cdef enum with a negative enumerator (int)
+CHR_TYPES = TYPES + CHR_EXTRA_TYPES
+CHR_PRELUDE = """
+cdef extern from *:
+    '''
+    typedef long long c18_ext_ll;
+    typedef unsigned short c18_ext_u16;
+    '''
+    ctypedef int c18_ext_ll
+    ctypedef unsigned char c18_ext_u16
+ctypedef unsigned int c18_td_uint
+cdef enum C18Enum:
+    c18_neg = -1
+    c18_big = 0x10FFFF
+"""
+# widths around every decision of the helper: width <= 1 (PyUnicode_FromOrdinal), 2.. (buffer path),
+# padding_length <= 250 i.e. width <= 251 (last buffer width), 252.. (BuildFromAscii / generic concat)
+CHR_SMALL_W = [1, 2, 3, 4, 5]
+CHR_BIG_W = [8, 100, 249, 250, 251, 252, 253, 254, 255, 256, 257, 258, 300]
+CHR_BIG_W_QUICK = [100, 250, 251, 252, 253, 256, 257]
+
+
+def chr_templates(quick):
+    """[(template, width, pad, kind)]: template is a str.format template over `v`; kind 'small'/'big' selects the
+    value set; width None = composite template (no model query)"""
+    out = [("{v:c}", 0, " ", "small")]
+    for w in CHR_SMALL_W:
+        out += [("{v:%dc}" % w, w, " ", "small"), ("{v:0%dc}" % w, w, "0", "small")]
+    out += [("{v:>3c}", 3, " ", "small"), ("{v:003c}", 3, "0", "small"),
+            ("[{v:3c}|{v:02c}]{v:c}", None, None, "small"), ("{v:251c}{v:0252c}", None, None, "big")]
+    for w in (CHR_BIG_W_QUICK if quick else CHR_BIG_W):
+        out += [("{v:%dc}" % w, w, " ", "big"), ("{v:0%dc}" % w, w, "0", "big")]
+    return out
+
+
+def chr_module(types, tmpls):
+    L = ["# cython: language_level=3", CHR_PRELUDE]
+    for ct, nm, w, sg in types:
+        L += ["def sw_%s(vals, ks, fmt=None, tmpls=None):" % nm,
+              "    cdef %s v" % ct, "    cdef int k", "    out = []",
+              "    if vals and vals[0] == 'range':", "        vals = range(vals[1], vals[2], vals[3])",
+              "    for x in vals:", "        v = x", "        for k in ks:", "            try:"]
+        for i, (t, wi, p, kind) in enumerate(tmpls):
+            L += ["                %s k == %d: r = f\"%s\"" % ("if" if i == 0 else "elif", i, t)]
+        L += ["                else: r = None",
+              "            except Exception as e:", "                r = [type(e).__name__]",
+              "            if fmt is None:", "                out.append(r)", "                continue",
+              "            try:", "                ex = fmt(tmpls[k], x)",
+              "            except Exception as e:", "                ex = [type(e).__name__]",
+              "            if r != ex:", "                out.append([x, k, r, ex])",
+              "                if len(out) >= 12:", "                    return out",
+              "    return out", ""]
+    return "\n".join(L)
+
+
+def chr_values(w, sg, nm, rng, nrand):
+    """boundary values of every branch the value takes on its way through the range test, the (int) cast, the
+    Latin-1 / 2- / 3- / 4-byte encoder branches and every bit field of the encoded bytes"""
+    if nm == "bint":
+        return [0, 1], [0, 1]
+    lo, hi = rng_of(w, sg)
+    core = set()
+    for b in (0, 0x80, 0x100, 0x800, 0x10000, 0xD800, 0xE000, 0x110000, 0x200000, 2 ** 31, 2 ** 32):
+        core |= {b - 1, b, b + 1}
+    core |= {lo, hi, 0x41, 0x7FF - 0x40, 0xFFFD, 0x10FFFE, 0x10FFFF, 0x1F600, 0x20AC, 0xE9, 2 ** 32 + 0x800}
+    ext = set(core)
+    for b in (0x40, 0xC0, 0x7C0, 0x1000, 0xFC0, 0xFFC0, 0xDC00, 0x10040, 0x40000, 0x80000, 0xC0000, 0x100000,
+              0x1FFFFF, 0x400000, 2 ** 31 + 0x800, 2 ** 32 + 0x10000, 2 ** 63):
+        ext |= {b - 2, b - 1, b, b + 1}
+    for b in (0, 0x80, 0x100, 0x800, 0x10000, 0xD800, 0xE000, 0x110000, 0x200000):
+        ext |= {b - 2, b + 2}
+    ext |= {lo + 1, hi - 1, -2, -128, -129, -255, -256, -257, -0x800, 2 ** 32 + 0x41, 2 ** 32 + 0x20AC,
+            0x200000 + 0x800, 0x200000 + 0x41, 0x80000000 + 0x41}
+    for a, b in ((0x100, 0x7FF), (0x800, 0xD7FF), (0xE000, 0xFFFF), (0x10000, 0x10FFFF), (0x110000, 2 ** 31 - 1)):
+        for _ in range(nrand):
+            ext.add(rng.randrange(a, b + 1))
+    ok = lambda v: lo <= v <= hi
+    return sorted(filter(ok, ext)), sorted(filter(ok, core))
+
+
+def _chr_expect(tmpl, pv):
+    try:
+        return tmpl.format(v=pv)
+    except Exception as e:
+        return [type(e).__name__]
+
+
+def classify_chr(tmpl, wi, v):
+    if v >= 0x200000 and UCHAR_FIXED != "1":
+        return "c_format_high_bits_not_rejected"
+    return "cint_padded_char_wrong"
+
+
+def run_chr(ctx, wd, model, quick, nbad):
+    """the whole padded-ordinal class: (type, template, value) three ways + in-module sweeps of all code points"""
+    import ast
+    rng = ctx.rng
+    tmpls = chr_templates(quick)
+    tstrs = [t[0] for t in tmpls]
+    small_k = [i for i, t in enumerate(tmpls) if t[3] == "small"]
+    big_k = [i for i, t in enumerate(tmpls) if t[3] == "big"]
+    setup = "import c18_chr\n"
+    ctext = open(os.path.join(wd, "c18_chr.c")).read()
+    # dispatch tie: every single-field template reaches the helper with its (width, pad, 'c')
+    calls = re.findall(r"= __Pyx_PyUnicode_From_\w+\(__pyx_v_v, (\d+), '(.)', '(.)'\)", ctext)
+    want_calls = set((str(wi), p, "c") for t, wi, p, kind in tmpls if wi is not None)
+    ctx.case("chr/dispatch", "c18_chr", sig=("chr-dispatch",))
+    if not want_calls <= set(calls) or "__Pyx_PyUnicode_FromOrdinal_Padded" not in ctext:
+        ctx.corr_break("chr-fastpath-dispatch", "c18_chr", sorted(set(calls))[:40], sorted(want_calls)[:40])
+    cases, meta = [], []
+    for ctn, nm, w, sg in CHR_TYPES:
+        ext, core = chr_values(w, sg, nm, rng, 2 if quick else 12)
+        bigvals = ext if (nm in ("int", "ulong") or not quick) else core
+        cases.append(["c18_chr.sw_%s" % nm, [ext, small_k]])
+        meta.append((nm, w, sg, ext, small_k))
+        cases.append(["c18_chr.sw_%s" % nm, [bigvals, big_k]])
+        meta.append((nm, w, sg, bigvals, big_k))
+    res = cybuild.call_cases(wd, cases, setup=setup, alarm=60, max_crashes=100)
+    # a crash inside a sweep: redo that sweep value by value so that the failing input is concrete
+    flat = []          # (nm, w, sg, v, k, outcome)
+    redo, redo_meta = [], []
+    for (nm, w, sg, vals, ks), r in zip(meta, res):
+        if "e" in r:
+            for v in vals:
+                for k in ks:
+                    redo.append(["c18_chr.sw_%s" % nm, [[v], [k]]])
+                    redo_meta.append((nm, w, sg, v, k))
+            continue
+        rows = ast.literal_eval(r["r"])
+        it = iter(rows)
+        for v in vals:
+            for k in ks:
+                flat.append((nm, w, sg, v, k, next(it)))
+    if redo:
+        for (nm, w, sg, v, k), r in zip(redo_meta, cybuild.call_cases(wd, redo, setup=setup, alarm=10, max_crashes=400)):
+            flat.append((nm, w, sg, v, k, [r["e"]] if "e" in r else ast.literal_eval(r["r"])[0]))
+    mq, sq, mqi = [], [], []
+    for j, (nm, w, sg, v, k, got) in enumerate(flat):
+        t, wi, p, kind = tmpls[k]
+        if wi is None:
+            continue
+        mq.append("ucharb %s %d %d %d %d %d" % (UCHAR_FIXED, w, sg, v, wi, ord(p)))
+        sq.append("pychar %d %d %d" % (v, wi, ord(p)))
+        mqi.append(j)
+    mres = dict(zip(mqi, model.batch(mq)))
+    sres = dict(zip(mqi, model.batch(sq)))
+
+    def mval(line):
+        if line.startswith("T "):
+            return "".join(map(chr, map(int, line[2:].split(",")))) if line != "T -" else ""
+        return [line]
+    for j, (nm, w, sg, v, k, got) in enumerate(flat):
+        t, wi, p, kind = tmpls[k]
+        pv = bool(v) if nm == "bint" else v
+        exp = _chr_expect(t, pv)
+        inp = {"form": "fstring-c", "type": nm, "template": t, "value": v, "func": "c18_chr.sw_%s" % nm, "args": [[v], [k]]}
+        rgn = ("neg" if v < 0 else "latin1" if v < 0x100 else "utf8-2" if v < 0x800 else "surrogate" if 0xD800 <= v <= 0xDFFF
+               else "utf8-3" if v < 0x10000 else "utf8-4" if v < 0x110000 else "too-big")
+        wcl = "composite" if wi is None else "w<=1" if wi <= 1 else "buffer" if wi <= 251 else "w>251"
+        ctx.case("chr/%s/%s" % (rgn, wcl), inp, sig=("chr", nm, t, v))
+        if j in mres:
+            mv = mval(mres[j])
+            if mv != got:
+                ctx.corr_break("chr:bytemodel-vs-helper", inp, got, mv)
+            if mval(sres[j]) != exp:
+                ctx.corr_break("chr:spec-vs-cpython", inp, exp, mval(sres[j]))
+        if got != exp:
+            kl = classify_chr(t, wi, v)
+            nbad[kl] = nbad.get(kl, 0) + 1
+            if nbad[kl] <= 3:
+                ctx.fail(kl, inp, got, exp)
+
+    # the model's UTF-8 decoder and encoder against CPython's codec (ties utf8_decode / utf8_enc_c, the terms the
+    # theorems are about, to the real PyUnicode_DecodeUTF8 / the real encoding)
+    cps = sorted({c for c in chr_values(64, True, "x", rng, 8 if quick else 200)[0] if 0x80 <= c <= 0x10FFFF})
+    er = model.batch(["utf8enc %d" % c for c in cps])
+    for c, line in zip(cps, er):
+        want = [] if 0xD800 <= c <= 0xDFFF else list(chr(c).encode("utf-8"))
+        ctx.case("chr/utf8-encoder", c, sig=("utf8enc", c))
+        if want and [int(x) for x in line.split(",")] != want:
+            ctx.corr_break("chr:utf8_enc_c-vs-codec", c, want, line)
+    seqs = [[]]
+    for c in cps:
+        b = list(chr(c).encode("utf-8", "surrogatepass"))
+        seqs += [b, [0x30] + b + [0x20], b[:-1], b + [0x80], [b[0]] + [x ^ 0x40 for x in b[1:2]] + b[2:]]
+    seqs += [[0xC0, 0x80], [0xC1, 0xBF], [0xC2, 0x7F], [0xC2, 0xC0], [0xE0, 0x80, 0x80], [0xE0, 0x9F, 0xBF], [0xE0, 0xA0, 0x80],
+             [0xED, 0x9F, 0xBF], [0xED, 0xA0, 0x80], [0xED, 0xBF, 0xBF], [0xEE, 0x80, 0x80], [0xF0, 0x80, 0x80, 0x80],
+             [0xF0, 0x8F, 0xBF, 0xBF], [0xF0, 0x90, 0x80, 0x80], [0xF4, 0x8F, 0xBF, 0xBF], [0xF4, 0x90, 0x80, 0x80],
+             [0xF5, 0x80, 0x80, 0x80], [0xF8, 0x88, 0x80, 0x80, 0x80], [0xFF], [0xFE], [0x80], [0xBF], [0x7F], [0x00]]
+    for _ in range(300 if quick else 6000):
+        n = rng.randrange(1, 6)
+        seqs.append([rng.choice([rng.randrange(256), rng.randrange(0x80, 0xC0), rng.choice([0xC2, 0xDF, 0xE0, 0xED, 0xEF, 0xF0, 0xF4])])
+                     for _ in range(n)])
+    dr = model.batch(["utf8dec %s" % (",".join(map(str, b)) if b else "-") for b in seqs])
+    for b, line in zip(seqs, dr):
+        try:
+            want = bytes(b).decode("utf-8")
+        except UnicodeDecodeError:
+            want = ["UnicodeDecodeError"]
+        ctx.case("chr/utf8-decoder", b, sig=("utf8dec", tuple(b)))
+        if mval(line) != want:
+            ctx.corr_break("chr:utf8_decode-vs-codec", b, want, line)
+
+    # every code point (and the first values past U+10FFFF), compared inside the module with CPython's str.format
+    sweep_k = [i for i, t in enumerate(tmpls) if t[0] in ("{v:3c}", "{v:0251c}")]
+    if quick:
+        sweeps = [("int", sweep_k)]
+    else:
+        allk = [i for i, t in enumerate(tmpls) if t[0] in ("{v:c}", "{v:2c}", "{v:03c}", "{v:250c}", "{v:0251c}", "{v:252c}", "{v:0300c}")]
+        sweeps = [(nm, allk) for ctn, nm, w, sg in CHR_TYPES if w >= 32 and nm != "bint"]
+    hi = 0x110000 + 0x200
+    scases = [["c18_chr.sw_%s" % nm, [["range", 0, hi, 1], ks, {"py": "c18_fmt"}, tstrs]] for nm, ks in sweeps]
+    sres_ = cybuild.call_cases(wd, scases, setup=setup + "c18_fmt = lambda t, x: t.format(v=x)\n", alarm=600, max_crashes=20)
+    for (nm, ks), r in zip(sweeps, sres_):
+        n = hi * len(ks)
+        ctx.count("chr/all-code-points/%s" % nm, n, distinct_sigs=[("chr-sweep", nm, tstrs[k]) for k in ks])
+        bad = [["CRASH", 0, r.get("e"), r.get("m")]] if "e" in r else ast.literal_eval(r["r"])
+        for x, k, got, exp in bad[:3]:
+            inp = {"form": "fstring-c", "type": nm, "template": tstrs[k] if isinstance(k, int) else k, "value": x,
+                   "func": "c18_chr.sw_%s" % nm, "sweep": [0, hi]}
+            kl = classify_chr(tstrs[k] if isinstance(k, int) else "", 0, x if isinstance(x, int) else 0)
+            nbad[kl] = nbad.get(kl, 0) + 1
+            ctx.fail(kl, inp, got, exp, note="found by the in-module sweep over range(0, 0x%x)" % hi)
+    ctx.extra.setdefault("exhaustive_domains", []).append(
+        "every int in range(0, 0x%x) x templates %s x types %s: compiled f-string vs str.format inside the module"
+        % (hi, [tstrs[k] for k in sweeps[0][1]], [nm for nm, _ in sweeps]))
+
+
 PARSE_SCRIPT = r"""
 import sys, json
 import pyload; pyload.install()
@@ -369,7 +606,8 @@ def run(ctx):
     bspecs = [dict(name="c18_%s" % nm, source=int_module(ct, nm, specs, dynspecs), workdir=wd) for ct, nm, w, sg in TYPES]
     bspecs += [dict(name="c18_float", source=float_module(fspecs), workdir=wd),
                dict(name="c18_obj", source=obj_module(ospecs), workdir=wd),
-               dict(name="c18_tmpl", source=tmpl_module(tmpls, tstep), workdir=wd)]
+               dict(name="c18_tmpl", source=tmpl_module(tmpls, tstep), workdir=wd),
+               dict(name="c18_chr", source=chr_module(CHR_TYPES, chr_templates(quick)), workdir=wd)]
     if quick:
         for sp in bspecs:
             sp["cflags"] = ["-O0"]
@@ -379,7 +617,7 @@ def run(ctx):
             ctx.corr_break("build " + sp["name"], sp["name"], str(err)[:1500], "module builds")
             return
     ctx.note("build: %.0f s" % (time.time() - t0))
-    mods = [sp["name"] for sp in bspecs]
+    mods = [sp["name"] for sp in bspecs if sp["name"] != "c18_chr"]
     setup = "import " + ", ".join(mods) + "\n" + OBJ_SETUP
     model = ctx.model("intfmt")
 
@@ -391,6 +629,12 @@ def run(ctx):
         ctx.case("tables", name, sig=("table", name))
         if txt != ct[name]:
             ctx.corr_break("table " + name, name, ct[name], txt)
+
+    nbad = {}
+    # ---- the padded 'c' path (byte-level model, all code points)
+    t1 = time.time()
+    run_chr(ctx, wd, model, quick, nbad)
+    ctx.note("padded-c section: %.0f s" % (time.time() - t1))
 
     # dispatch tie: the generated C calls the helper with exactly the dumped (width, pad, type)
     for ctn, nm, w, sg in TYPES:
@@ -444,7 +688,6 @@ def run(ctx):
         mqi.append(k)
     mres = dict(zip(mqi, model.batch(mq)))
     sres = dict(zip(mqi, model.batch(sq)))
-    nbad = {}
     for k, ((nm, w, sg, i, v), r) in enumerate(zip(meta, res)):
         sp = specs[i]
         t, wi, p = parsed[i]
